@@ -65,7 +65,10 @@ type SymString struct {
 type opaque struct {
 	t    types.Type
 	from string
+	noop bool // produced by a declared no-op package (logging, metrics)
 }
+
+var errorType = types.Universe.Lookup("error").Type()
 
 // elemRef is the address of base[idx] for a symbolic idx already known to be
 // in range.
